@@ -677,6 +677,11 @@ impl<'a> Run<'a> {
                         "exact" => (if num_eq(a, b) { 0.0 } else { f64::INFINITY }, 0.0),
                         "tau" => ((a - b).abs(), tau(t) * l.mag * mfac * 1.001),
                         "tauvar" => ((a.signum() * a * a - b.signum() * b * b).abs(), tau(t) * l.mag * l.mag * (l.cfg.m * l.cfg.m).max(1.0) * 1.001),
+                        // the documented combination has a branch of its own for a zero deviation ("0 when MAD is 0"): when the public
+                        // MeanAbsoluteDeviation reports exactly 0 the hand-wired result is exactly 0, and so must the composite be
+                        "neutral" if b == 0.0 && !(o["ts"].as_bool().unwrap_or(false) && !(unit.b == 0.0 && (unit.a.to_bits() & ((1u64 << 52) - 1)) == 0)) => {
+                            (if a == 0.0 { 0.0 } else { f64::INFINITY }, 0.0)
+                        }
                         _ => {
                             if !(c <= 1e6) || unit.warped() {
                                 if num_eq(a, b) { (0.0, 0.0) } else { ctx.stats.skipped_ill += 1; continue; }
